@@ -245,7 +245,7 @@ for _k, _v in _ADD9.items():
 _ADD10 = {
     "C02": " R1 reads each envelope's configuration together with what it inherits from the Pydantic-branch base class (v2 `model_config` and v1 `class Config`).",
     "C03": " Added: R7 — the handshake functions leave the request id to send_message (fresh uuid4) or hand on their own caller's: an id fixed by the library lets a late answer to an abandoned attempt be taken for this one's.",
-    "C06": " R2 also demands that the message itself reaches json.dumps only on a path where `isinstance(message, str)` is false (an exact-type test lets a str subclass through), and tests a trimmed copy of the caller's text on itself.",
+    "C06": " R2 also demands that the message itself reaches json.dumps only on a path where `isinstance(message, str)` is false (an exact-type test lets a str subclass through), and tests a trimmed copy of the caller's text on itself. Added: R6 — a writer that gathers lines in an accumulator never writes another line while the accumulator may hold some (one-bit forward analysis over the writer, sa/order.py).",
     "C08": " R2 extended: the envelope builders the dispatcher answers through (create_error_response / create_response and what wraps them) call nothing that can raise besides the envelope constructor.",
     "C09": " R1 extended: where `__post_init__` is reached under Pydantic only through `model_post_init`, that method stores nothing into the object before it delegates (the two backends run the check on the same values).",
     "C10": " Added: R7 — envelope classes that override model_dump/model_dump_json never rewrite payload values (lifted from C02-R5). Model configurations include what the base class sets.",
